@@ -532,6 +532,7 @@ class Prover:
         self.seed = seed
         self.timeout = int(os.environ.get("VERIF_QUERY_TIMEOUT_MS", TIMEOUTS.get(tier, 20000)))
         self.records = []
+        self.unknowns = 0
         self.paths = 0
         self.queries = 0
         self.solver_time = 0.0
@@ -548,6 +549,8 @@ class Prover:
         assertions = list(assertions)
         t = time.time()
         r = None
+        if self.unknowns > 3:
+            retries = 0
         for attempt in range(retries + 1):
             s = z3.Solver()
             s.set("timeout", timeout or self.timeout)
@@ -557,7 +560,18 @@ class Prover:
                 assertions = list(assertions)
                 rnd.shuffle(assertions)
             s.add(assertions)
-            r = s.check()
+            # watchdog: z3 occasionally ignores its own timeout inside nlsat preprocessing
+            import threading
+
+            wd = threading.Timer((timeout or self.timeout) / 1000.0 + 3.0, z3.main_ctx().interrupt)
+            wd.daemon = True
+            wd.start()
+            try:
+                r = s.check()
+            except z3.Z3Exception:
+                r = z3.unknown
+            finally:
+                wd.cancel()
             self.queries += 1
             if r != z3.unknown:
                 break
@@ -723,6 +737,20 @@ class Prover:
         if r0 == "unsat":
             self.rec(oname, "unsat", time=round(time.time() - t0, 3), axioms=0, abstracted=True, reach=reach)
             return
+        if r0 == "sat":
+            # the abstraction's model is a candidate input: the real code is the judge
+            try:
+                env0 = model_env(s0.model())
+                rp0 = self._replay(sc, params, env0, key, None)
+            except Exception:
+                rp0 = None
+            if rp0 and rp0.get("reproduced"):
+                finding = self._classify(oname, pc, out, key)
+                self.rec(oname, "sat", time=round(time.time() - t0, 3), model=jsonable(env0), replay=rp0, refinements=0, finding=finding, via="abstraction-model")
+                return
+        if self.unknowns > 3:
+            # this job is already inconclusive/violating: do not spend the full budget on every query
+            self.timeout = min(self.timeout, 5000)
         ax = self._axioms(pc + [neg], out)
         r, s, dt = self._check(pc + ax + [neg])
         rounds = 0
@@ -753,6 +781,7 @@ class Prover:
             self.rec(oname, "unsat", time=round(total, 3), axioms=len(ax), refinements=rounds, reach=reach)
             return
         if r == "unknown":
+            self.unknowns += 1
             self.rec(oname, "unknown", time=round(total, 3), axioms=len(ax), refinements=rounds)
             return
         # sat
